@@ -21,6 +21,7 @@ REDIRECTION_DOMAINS_RE = re.compile(
     r"(?:\.ampproject\.org(?::\d*)?/[cv]/(?:s/)?|bc\.marfeelcache\.com(?::\d*)?/amp/|bc\.marfeel\.com(?::\d*)?/)",
     re.I,
 )
+GOOGLE_URL_RE = re.compile(r"/url\?(?:[^#]*&)?q=")
 YOUTUBE_REDIRECT_RE = re.compile(r"youtube\.com(?::\d*)?/redirect\?", re.I)
 
 
@@ -56,7 +57,8 @@ def infer_redirection(url, recursive=True):
         if obvious_redirect_match is not None:
             # NOTE: the keys are matched whatever their case, "Q" is "q"
             if obvious_redirect_match.group(1).lower() == "q":
-                if "/url?q=" not in url and "/redirect" not in url:
+                # NOTE: "q" need not be the first item of the query
+                if not GOOGLE_URL_RE.search(url) and "/redirect" not in url:
                     return url
 
             potential_target = unquote(obvious_redirect_match.group(2))
